@@ -2200,6 +2200,28 @@ func (l *Lowerer) lowerConstantUnaryExpr(name string, typ parser.Type, expr *par
 			negLit := &parser.Literal{Kind: lit.Kind, Value: "-" + lit.Value, Span: lit.Span}
 			return l.lowerScalarConstant(name, typ, negLit)
 		}
+		// Negation of a constant integer expression: const X: i32 = -(A + 1);
+		// (the float evaluator below would store float bits in an integer constant)
+		if kind, val, ierr := l.evalConstantIntExpr(expr.Operand); ierr == nil && (kind == ir.ScalarSint || kind == ir.ScalarUint) {
+			result := -val
+			var typeHandle ir.TypeHandle
+			if typ != nil {
+				typeHandle, _ = l.resolveType(typ)
+				var bits uint64
+				kind, bits = l.coerceScalarToType(kind, uint64(result), typeHandle)
+				result = int64(bits)
+			} else {
+				typeHandle = l.registerType("", ir.ScalarType{Kind: kind, Width: 4})
+			}
+			handle := ir.ConstantHandle(len(l.module.Constants))
+			l.module.Constants = append(l.module.Constants, ir.Constant{
+				Name:  name,
+				Type:  typeHandle,
+				Value: ir.ScalarValue{Bits: uint64(result), Kind: kind},
+			})
+			l.moduleConstants[name] = handle
+			return nil
+		}
 		// Negation of constant expression
 		floatVal, err := l.evalConstantFloatExpr(expr)
 		if err == nil {
